@@ -84,11 +84,11 @@ def menu():
     for v in ('1,2', '2,1', '1,3', '3,2', '1,7', '2'):
         add('src=' + v, lambda a, v=v: drop(a, '--excitation-pulse') + ['--excitation-pulse=' + v])
     add('2src', lambda a: drop(a, '--excitation-pulse') + ['--excitation-pulse=1', '--excitation-voltage=1', '--excitation-pulse=2,2', '--excitation-voltage=0.5-2j'])
-    for v in ('50', '5-3j', '-4j', '0.001+1000j', '1e-3-1e3j', '75+0j'):
+    for v in ('50', '5-3j', '-4j', '0.001+1000j', '1e-3-1e3j', '75+0j', '12.34567-0.7654321j'):
         add('load=' + v, lambda a, v=v: drop(drop(a, '--load'), '--attach-load') + ['--load=' + v, '--attach-load=1,2'])
-    for v in ('5,1e-6,', '5,,30e-12', ',2e-6,30e-12', '0.5,1e-7,1e-9', '1000,,'):
+    for v in ('5,1e-6,', '5,,30e-12', ',2e-6,30e-12', '0.5,1e-7,1e-9', '1000,,', '5.123456,1.234567e-6,3.456789e-11'):
         add('rlc=' + v, lambda a, v=v: a + ['--rlc-load=' + v, '--attach-load=%d,1' % (2 if any(x.startswith('--load') for x in a) else 1)])
-    for v in ('2,1e-6,50e-12', '0.1,5e-6,1e-10'):
+    for v in ('2,1e-6,50e-12', '0.1,5e-6,1e-10', '234.5678,1.234567e-6,5.678901e-11'):
         add('trap=' + v, lambda a, v=v: a + ['--trap-load=' + v, '--attach-load=%d,3' % (2 if any(x.startswith('--load') for x in a) else 1)])
     for va, vb in (('1,2e-9', '10,3e-6'), ('0,-2.193644e-9', '1,0'), ('1', '0,225.998e-9'), ('1,2e-9,1e-18', '3,1e-7')):
         add('laplace=%s/%s' % (va, vb), lambda a, va=va, vb=vb: a + ['--laplace-load-a=' + va, '--laplace-load-b=' + vb,
@@ -104,11 +104,11 @@ def menu():
             lambda a, tag=tag, ks=ks: drop(drop(a, '--load'), '--attach-load') + ['--load=20-150j'] + ['--attach-load=1,%d,%d' % (k, tag) for k in ks])
     add('attach2obj', lambda a: drop(drop(a, '--load'), '--attach-load') + ['--load=7-2j', '--attach-load=1,all,1', '--attach-load=1,all,2'])
     add('attach-mixed', lambda a: drop(drop(a, '--load'), '--attach-load') + ['--load=7-2j', '--attach-load=1,all,2', '--attach-load=1,1,1', '--load=3', '--attach-load=2,2'])
-    for v in ('1e6', '5.8e7,1', '3e5,2', '1e5,7'):
+    for v in ('1e6', '5.8e7,1', '3e5,2', '1e5,7', '3.456789e6'):
         add('skinc=' + v, lambda a, v=v: a + ['--skin-effect-conductivity=' + v])
     for v in ('1e-6', '2e-5,2'):
         add('skinr=' + v, lambda a, v=v: a + ['--skin-effect-resistivity=' + v])
-    for v in ('0.004,2.3', '0.003,4,1', '0.01,1,2'):
+    for v in ('0.004,2.3', '0.003,4,1', '0.01,1,2', '0.003456789,2.345678'):
         add('insul=' + v, lambda a, v=v: a + ['--insulation-load=' + v])
     for name, ms in (('ideal', ['--medium=0,0,0']), ('1real', ['--medium=13,0.005,0']),
                      ('2lin0', ['--medium=13,0.005,0,0', '--medium=3,0.001,-1', '--boundary=linear']),
@@ -179,7 +179,8 @@ def compare(d1, d2):
         if dv > 1e-9 * size:
             kind = 'taper' if a['taper'][0] else a['cls']
             out.append(('GEOMETRY-' + kind, 'object %d (tag %s): segment ends differ by %.3g after the round trip (taper %s -> %s)' % (i, a['tag'], dv, a['taper'], b['taper'])))
-        if not close(a['r'], b['r'], 1e-9) or not close(a['r_orig'], b['r_orig'], 1e-9):
+        # r is the equivalent radius: with an insulation load it depends on the sleeve radius and permittivity, printed with 6 digits
+        if not close(a['r'], b['r'], 1e-5) or not close(a['r_orig'], b['r_orig'], 1e-9):
             out.append(('RADIUS', 'object %d: radius %g -> %g' % (i, a['r'], b['r'])))
     if len(d1['src']) != len(d2['src']) or any(x[0] != y[0] or not close(x[1], y[1]) for x, y in zip(d1['src'], d2['src'])):
         out.append(('SOURCES', 'sources %s read back as %s' % (d1['src'], d2['src'])))
